@@ -123,15 +123,17 @@ func (a *c20Acc) add(fmtName, class string, in uint32, got, exp int, sample bool
 	}
 	a.mu.Lock()
 	a.eval[key]++
-	ev := lib.Ev{"op": "conv", "fmt": fmtName, "class": class, "in": fmt.Sprintf("%08x", in), "inhi": int(in >> 16), "inlo": int(in & 0xffff), "got": got, "exp": exp,
-		"f2c": class != "roundtrip" && class != "roundtrip-nan" && class != "bytes" && got != -2}
+	mk := func() lib.Ev {
+		return lib.Ev{"op": "conv", "fmt": fmtName, "class": class, "in": fmt.Sprintf("%08x", in), "inhi": int(in >> 16), "inlo": int(in & 0xffff), "got": got, "exp": exp,
+			"f2c": class != "roundtrip" && class != "roundtrip-nan" && class != "bytes" && got != -2}
+	}
 	if !ok {
 		a.mism[key]++
 		if len(a.examples[key]) < 12 {
-			a.examples[key] = append(a.examples[key], ev)
+			a.examples[key] = append(a.examples[key], mk())
 		}
 	} else if sample && len(a.samples) < 6000 {
-		a.samples = append(a.samples, ev)
+		a.samples = append(a.samples, mk())
 	}
 	a.mu.Unlock()
 }
@@ -186,7 +188,7 @@ func runC20(args []string) {
 		}
 		return c
 	}
-	check := func(name string, x uint32, sample bool) {
+	checkAcc := func(acc *c20Acc, name string, x uint32, sample bool) {
 		var exp int
 		var class string
 		if name == "bf16" {
@@ -201,6 +203,7 @@ func runC20(args []string) {
 		}
 		acc.add(name, class, x, got, exp, sample)
 	}
+	check := func(name string, x uint32, sample bool) { checkAcc(acc, name, x, sample) }
 	// 1. code -> float32 -> code identity (all codes)
 	roundtrip := func(name string, ncodes int, toF func(c int) float32, isNaN func(c int) bool) {
 		for c := 0; c < ncodes; c++ {
@@ -235,23 +238,42 @@ func runC20(args []string) {
 	if full {
 		var wg sync.WaitGroup
 		chunk := uint64(1) << 32 / uint64(workers)
+		locals := make([]*c20Acc, workers)
 		for w := 0; w < workers; w++ {
 			wg.Add(1)
+			locals[w] = &c20Acc{eval: map[string]int{}, mism: map[string]int{}, examples: map[string][]lib.Ev{}}
 			go func(w int) {
 				defer wg.Done()
+				la := locals[w] // private accumulator: no lock contention
 				lo, hi := uint64(w)*chunk, uint64(w+1)*chunk
 				if w == workers-1 {
 					hi = 1 << 32
 				}
 				for x := lo; x < hi; x++ {
 					s := x%1000003 == 0
-					check("e4m3", uint32(x), s)
-					check("e5m2", uint32(x), s)
-					check("bf16", uint32(x), s)
+					checkAcc(la, "e4m3", uint32(x), s)
+					checkAcc(la, "e5m2", uint32(x), s)
+					checkAcc(la, "bf16", uint32(x), s)
 				}
 			}(w)
 		}
 		wg.Wait()
+		for _, la := range locals {
+			for k, v := range la.eval {
+				acc.eval[k] += v
+			}
+			for k, v := range la.mism {
+				acc.mism[k] += v
+			}
+			for k, v := range la.examples {
+				if len(acc.examples[k]) < 12 {
+					acc.examples[k] = append(acc.examples[k], v...)
+				}
+			}
+			if len(acc.samples) < 6000 {
+				acc.samples = append(acc.samples, la.samples...)
+			}
+		}
 	} else {
 		r := lib.Rng(seed, 0, "c20")
 		for _, name := range []string{"e4m3", "e5m2"} {
